@@ -154,7 +154,8 @@ def check_cfg(F, R, cfg, legacy):
         return False
 
     G_R = Guard("recompute_R(..) == signature.R (byte comparison of CompressedEdwardsY)",
-                r"<curve25519_dalek::edwards::CompressedEdwardsY as core::cmp::PartialEq>::eq$", want=1, arg_pred=req_pred)
+                r"<curve25519_dalek::edwards::CompressedEdwardsY as core::cmp::PartialEq>::eq$", want=1, arg_pred=req_pred,
+                alt=[(r"<curve25519_dalek::edwards::CompressedEdwardsY as core::cmp::PartialEq>::ne$", 0)])
     # the byte comparison is the derived structural equality on [u8; 32]
     eqf = [f for f in F.fns.values() if f.get("self_ty") == "curve25519_dalek::edwards::CompressedEdwardsY"
            and re.search(r"cmp::PartialEq$", f.get("trait") or "") and f.get("name") == "eq"]
@@ -377,26 +378,44 @@ def check_challenge_order(F, R, cc, I, rule="C09.challenge_order"):
         R.viol(rule, I("compute_challenge"), "hash input sequences are %s; expected [R,A,M] and [dom2,1,len,ctx,R,A,M]" % sorted(map(str, got)), fv.loc())
 
 
+TRANSPARENT_CALL = re.compile(r"::as_bytes$|::as_ref$|::as_slice$|Deref>::deref$|Index<core::ops::RangeFull>.*::index$|Borrow<.*>>::borrow$|::to_bytes$")
+
+
+def whole_arg(e, depth=0):
+    """index of the parameter the expression denotes *entirely* (through reborrows, casts, payload projections and transparent
+    accessors such as as_bytes / as_ref), or None - a sub-slice, a function of the parameter, or a mix is not the parameter"""
+    e = ex.strip(e, through_calls=False)
+    if not isinstance(e, tuple) or depth > 12:
+        return None
+    if e[0] == "arg":
+        return e[1]
+    if e[0] in ("cast", "ref", "deref", "copy") and len(e) > 1 and isinstance(e[1], tuple):
+        return whole_arg(e[1], depth + 1)
+    if e[0] == "proj" and isinstance(e[1], tuple):
+        return whole_arg(e[1], depth + 1)          # payload of Some(ctx), field of a wrapper
+    if e[0] == "call" and TRANSPARENT_CALL.search(e[1]) and e[2]:
+        return whole_arg(e[2][0], depth + 1)
+    return None
+
+
 def classify_update(fv, t):
     e = expr_of(fv, t["args"][1])
     b = ex.const_bytes(e)
     if b is not None:
         return ("bytes", b)
-    s = ex.strip(e)
-    if s[0] == "agg" and s[1][0] == "array" and len(s[2]) == 1:
-        x = ex.strip(s[2][0])
+    s = ex.strip(e, through_calls=False)
+    while isinstance(s, tuple) and s[0] in ("ref", "deref", "cast", "copy") and len(s) > 1 and isinstance(s[1], tuple):
+        s = ex.strip(s[1], through_calls=False)
+    if isinstance(s, tuple) and s[0] == "agg" and s[1][0] == "array" and len(s[2]) == 1:
+        x = ex.strip(s[2][0], through_calls=False)
+        while isinstance(x, tuple) and x[0] == "cast":
+            x = ex.strip(x[1], through_calls=False)
         if ex.is_call(x, r"slice::<impl \[u8\]>::len$|\]>::len$"):
-            a = ex.strip(ex.call_args(x)[0])
-            if a[0] == "arg":
-                return ("len_u8", a[1])
-            m = ex.find(x, lambda y: y[0] == "arg")
-            if m:
-                return ("len_u8", m[0][1])
-    if ex.is_call(s, r"::as_bytes$"):
-        s = ex.strip(ex.call_args(s)[0])
-    if s[0] == "arg":
-        return ("arg", s[1])
-    m = ex.find(s, lambda y: y[0] == "arg")
-    if len({y[1] for y in m}) == 1:
-        return ("arg", m[0][1])
+            a = whole_arg(ex.call_args(x)[0])
+            if a is not None:
+                return ("len_u8", a)
+        return ("?", ex.show(e))
+    a = whole_arg(e)
+    if a is not None:
+        return ("arg", a)
     return ("?", ex.show(e))
